@@ -920,7 +920,22 @@ def case_cluster(fn_name, rng, ctx):
     n = pick_n(rng, 2 if fn_name == "upgma" else 4)
     scale = pick_scale(rng)
     kind = _KINDS[int(rng.choice(len(_KINDS), p=_KIND_P))]
-    if rng.random() < 0.02 and ctx.allowed("float32_overflow_scale"):
+    big = rng.random() < 0.006
+    if big:
+        # more taxa than a byte can count: one large family of similar taxa (a cluster of >= 256 members forms early)
+        # plus a few distant ones whose merge heights depend on the size of that cluster
+        n = int(rng.choice([258, 262, 300]))
+        kind = "big_family"
+        nfar = int(rng.integers(2, 6))
+        A = rng.uniform(0.5, 1.5, size=(n, n))
+        D = np.triu(A, 1)
+        far = rng.choice(n, size=nfar, replace=False)
+        for f in far:
+            D[f, :] = D[:, f] = rng.uniform(8.0, 30.0)
+        D = np.triu(D, 1)
+        D = (D + D.T) * scale
+        ctx.op("matrix_big_family")
+    elif rng.random() < 0.02 and ctx.allowed("float32_overflow_scale"):
         kind = "overflow"
         if fn_name == "nj":
             n = max(n, 6)
@@ -929,7 +944,7 @@ def case_cluster(fn_name, rng, ctx):
         D = gen_matrix(rng, n, kind, scale)
     arr, dt, lay = present(rng, D)
     ctx.log({"fn": fn_name, "kind": kind, "n": n, "dtype": dt, "layout": lay,
-             "D": [[float(v) for v in row] for row in np.asarray(arr, dtype=np.float64)]})
+             "D": [[float(v) for v in row] for row in np.asarray(arr, dtype=np.float64)] if n <= 60 else "seeded (replay regenerates it)"})
     tree = run_clustering(ctx, fn_name, arr, n)
     if not isinstance(tree, Tree):
         ctx.fail("leaves_are_range_n", "%s returned %s" % (fn_name, type(tree).__name__))
